@@ -16,8 +16,8 @@
 //   - per flush and node: VTEP added before a newly added VXLAN route to it, route removed before
 //     the VTEP (synchronous runs, where flush boundaries are known);
 //   - async: proto.InSync is never read before the harness handed api.InSync to the graph, and
-//     (in-sync-last histories) when proto.InSync is read the folded state already equals the state
-//     a fresh graph emits for everything delivered, i.e. in-sync came after the flush, not before.
+//     (histories whose last input is in-sync) no message other than the harness's sentinel is read
+//     after proto.InSync, i.e. in-sync came after the flush that follows it, not before.
 //
 // Deliberately not checked:
 //   - "a route never exists without its VTEP" as a global invariant (the L3 resolver legitimately
@@ -122,17 +122,17 @@ func run(c *harness.Case) {
 			ops = calcgen.InSyncLast(ops)
 		}
 		ash := shadowdp.New()
-		var atInSync []string
-		checkedAtInSync := false
+		sawInSync := false
+		var afterInSync []string
 		res := calcgen.RunAsync(sc.U, sc.Graph, ops, 60*time.Second, func(msg any, inSyncDelivered bool) {
 			if inSyncDelivered {
 				ash.NoteInSyncDelivered()
 			}
-			if _, ok := msg.(*proto.InSync); ok && inSyncLast {
-				// Everything was delivered before api.InSync: the dataplane must already have been
-				// told all of it when it is told "in sync".
-				atInSync = shadowdp.Diff(ash.State, fresh.Shadow.State)
-				checkedAtInSync = true
+			if sawInSync && len(afterInSync) < 10 {
+				afterInSync = append(afterInSync, fmt.Sprintf("%T %v", msg, msg))
+			}
+			if _, ok := msg.(*proto.InSync); ok {
+				sawInSync = true
 			}
 			ash.OnMessage(msg)
 		})
@@ -144,12 +144,14 @@ func run(c *harness.Case) {
 		c.Count("async_messages", int64(ash.NumMessages))
 		count(c, ash)
 		report(c, sc, "async", ops, ash)
-		if checkedAtInSync {
-			c.Count("async_insync_state_checks", 1)
-			if len(atInSync) > 0 {
+		if inSyncLast {
+			// Everything was delivered before api.InSync, and in-sync must be reported only after the
+			// flush that follows it: nothing but the harness's sentinel may come after proto.InSync.
+			c.Count("async_insync_last_checks", 1)
+			if len(afterInSync) > 0 {
 				w := sc.Witness()
-				w["diff (A=state when proto.InSync was read, B=fresh graph)"] = atInSync[:min(len(atInSync), 20)]
-				c.Violationf("insync-before-flush", w, "proto.InSync was emitted before the dataplane had been told the full state: %s", atInSync[0])
+				w["messages_after_insync"] = afterInSync
+				c.Violationf("insync-before-flush", w, "proto.InSync was emitted before the flush that follows api.InSync: %d+ messages describing state delivered before in-sync came after it, first: %s", len(afterInSync), afterInSync[0])
 			}
 		}
 	}
@@ -177,7 +179,7 @@ func main() {
 		Floors: map[string]int64{"histories": 30, "messages_judged": 10000, "chk_rule_ipset_exists": 500, "chk_endpoint_policy_exists": 200,
 			"chk_endpoint_profile_exists": 200, "chk_ipset_delta_add_absent": 100, "chk_ipset_delta_remove_present": 100,
 			"chk_remove_exists": 500, "chk_ipset_remove_unreferenced": 50, "chk_policy_remove_unreferenced": 50,
-			"chk_profile_remove_unreferenced": 20, "chk_vtep_before_route": 5, "chk_insync_order": 2, "async_runs": 3},
+			"chk_profile_remove_unreferenced": 20, "chk_vtep_before_route": 5, "chk_insync_order": 2, "async_runs": 3, "async_insync_last_checks": 1},
 		CaseTimeout: 180 * time.Second,
 	})
 }
